@@ -128,8 +128,9 @@ class Tagger:
         return set()
 
 
-def run(prog, rep):
-    rep.rule("E3.x", "capture indices, queries and matches carry a Stanza/File index-space tag; every use combines equal tags")
+def index_space(prog, rep):
+    rep.rule("E3.x", "capture indices, queries and matches carry a Stanza/File index-space tag; every use (lookup, table access, comparison, "
+                     "field initialisation) combines equal tags")
     tg = Tagger(prog)
     n = 0
     for f in sorted(prog.fns.values(), key=lambda x: x.id):
@@ -210,6 +211,32 @@ def run(prog, rep):
                     rep.unresolved("E3.x", k, sp_str(st["sp"]), "value written to %s could not be tagged" % nm)
                 else:
                     rep.violation("E3.x", k, sp_str(st["sp"]), "%s (a %s-space field) receives a %s-space index" % (nm, want, "/".join(sorted(it))))
+        # comparisons of two capture indices
+        for b in sorted(body.reachable()):
+            for st in body.blocks[b]["stmts"]:
+                if st["k"] == "assign" and st["rv"]["k"] == "binop" and st["rv"]["op"] in ("Eq", "Ne", "Lt", "Le", "Gt", "Ge"):
+                    tr = tr or tg.tracer(f)
+                    ta = tg.index_tag(f, tr.operand(st["rv"]["a"]))
+                    tb = tg.index_tag(f, tr.operand(st["rv"]["b"]))
+                    if ta and tb:
+                        n += 1
+                        rep.check(ta == tb and len(ta) == 1, "E3.x", key("compare indices"), sp_str(st["sp"]), "both sides %s-space" % "/".join(sorted(ta)),
+                                  "a %s-space capture index is compared with a %s-space one" % ("/".join(sorted(ta)), "/".join(sorted(tb))))
+        # any aggregate that initialises a tagged field (execution contexts, AST nodes)
+        for b in sorted(body.reachable()):
+            for st in body.blocks[b]["stmts"]:
+                if st["k"] != "assign" or st["rv"]["k"] != "aggregate" or st["rv"].get("adt") in ("tsg::execution::Match", "tsg::ast::Stanza", "tsg::checker::CheckContext"):
+                    continue
+                for fname, op in zip(st["rv"].get("fields", []), st["rv"]["ops"]):
+                    if fname in S_FIELDS or fname in F_FIELDS:
+                        tr = tr or tg.tracer(f)
+                        want = "S" if fname in S_FIELDS else "F"
+                        it = tg.index_tag(f, tr.operand(op))
+                        if not it and canon(tr.operand(op)).endswith("MAX"):
+                            continue   # placeholder set by the parser, overwritten by the checker
+                        n += 1
+                        rep.check(it == {want}, "E3.x", key("init %s.%s" % ((st["rv"].get("adt") or "?").rsplit("::", 1)[-1], fname)), sp_str(st["sp"]), "%s-space value" % want,
+                                  "field %s (a %s-space index) of %s is initialised with a %s-space index" % (fname, want, st["rv"].get("adt"), "/".join(sorted(it)) or "untagged"))
         # aggregates
         for b in sorted(body.reachable()):
             for st in body.blocks[b]["stmts"]:
@@ -254,7 +281,7 @@ def run(prog, rep):
                     n += 1
                     rep.check(a == {"S"} and c == {"F"}, "E3.x", key("CheckContext{stanza_query, file_query}"), sp_str(st["sp"]), "stanza_query:S file_query:F",
                               "CheckContext binds stanza_query to a %s-space and file_query to a %s-space query" % (a, c))
-    rep.floor("E3.x", n, 30, "index-space uses")
+    rep.floor("E3.x", n, 40, "index-space uses")
     # the match iterators are created from the right queries
     for f in [x for x in prog.fns.values() if x.name in ("try_visit_matches_strict", "try_visit_matches_lazy") and x.body is not None]:
         tr = tg.tracer(f)
@@ -264,6 +291,37 @@ def run(prog, rep):
                 want = {"S"} if f.name.endswith("strict") else {"F"}
                 rep.check(qt == want, "E3.x", "%s :: cursor.matches query" % f.id, sp_str(t["sp"]), "matches come from the %s-space query" % next(iter(want)),
                           "matches of %s come from a %s-space query" % (f.name, qt))
+    return n
+
+
+def run(prog, rep):
+    index_space(prog, rep)
+    tg = Tagger(prog)
+    # capture evaluation shape and unrestricted cursors
+    rep.rule("C03.C", "a capture evaluates to Value::from_nodes(graph, mat.nodes_for_capture_index(index), quantifier) in both modes; query cursors are used unrestricted (no match limit, byte/point range, depth or timeout)")
+    for nm in ("evaluate", "evaluate_lazy"):
+        fl = [f for f in prog.find(self_ty="tsg::ast::Capture", name=nm)]
+        if len(fl) != 1:
+            rep.violation("C03.C", "anchor-lost:Capture::%s" % nm, "", "not found")
+            continue
+        f = fl[0]
+        tr = tg.tracer(f)
+        fn_calls = [(b, t) for b, t in f.body.calls() if is_callee(t, r"<impl tsg::graph::Value>::from_nodes$")]
+        ok = len(fn_calls) == 1
+        detail = ""
+        if ok:
+            a = [canon(strip(tr.operand(x))) for x in fn_calls[0][1]["args"]]
+            ok = a[0].endswith("arg:exec.graph") and re.match(r"^QueryMatch::nodes_for_capture_index\(&\*\*arg:exec\.mat, cast\(\*arg:self\.(stanza|file)_capture_index\)\)$", a[1]) is not None and a[2] == "*arg:self.quantifier"
+            detail = str(a)[:200]
+        rep.check(ok, "C03.C", "%s :: capture evaluation" % f.id, f.loc(), "from_nodes(graph, mat.nodes_for_capture_index(idx), self.quantifier)", "a capture is not evaluated from tree-sitter's own node iterator for that capture index: " + detail)
+    for f in sorted(prog.fns.values(), key=lambda x: x.id):
+        if f.body is None:
+            continue
+        for b, t in f.body.calls():
+            if is_callee(t, r"tree_sitter::QueryCursor::(set_match_limit|set_byte_range|set_point_range|set_max_start_depth|set_timeout_micros|set_containing_\w+)$"):
+                rep.violation("C03.C", "%s :: %s" % (f.id, callee_fn(t)["def"].rsplit("::", 1)[-1]), sp_str(t["sp"]), "the query cursor is restricted: matches outside the limit are silently not reported")
+    ncur = sum(1 for f in prog.fns.values() if f.body is not None for b, t in f.body.calls() if is_callee(t, r"tree_sitter::QueryCursor::new$"))
+    rep.floor("C03.C", ncur, 2, "query cursors")
     # E3.p
     rep.rule("E3.p", "one pattern per stanza; the merged query text is appended exactly once per stanza, in order; parse_stanza is the only producer of stanzas")
     ctx = e1_panic.Ctx(prog)
